@@ -152,6 +152,39 @@ def acceptLoop (capSpace capStream : Nat) :
 
 namespace NodeSt
 
+/-- undo of one accepted pattern when the stream vanished before tagging (`removeStreamPattern`) -/
+def rollbackStep (space : String) (acc : StreamRec × Trie) (p : String) : StreamRec × Trie :=
+  ((removeStreamPattern acc.1 acc.2 space p).1, (removeStreamPattern acc.1 acc.2 space p).2.1)
+
+/-- the part of `handleSubscribe` that runs under `remoteMu` once all checks passed: records are
+created, the accept loop runs, tags are registered (or the interest rolled back when the stream is
+gone), and — repaired code — empty records are dropped when nothing was accepted.
+Returns the new state and the rejected patterns. -/
+def subscribeCore (s : NodeSt) (sid : Nat) (space : String) (topics : List String) (acct : String) :
+    NodeSt × List String :=
+  let t := (s.getTrie space).getD Trie.empty
+  let rec0 := (alookup sid s.streams).getD ⟨acct, 0, []⟩
+  let res := acceptLoop s.capSpace s.capStream topics (rec0.pats space) rec0.total t []
+  let pats := res.1
+  let t' := res.2.2.1
+  let accepted := res.2.2.2.1
+  let rec1 : StreamRec := { rec0 with total := res.2.1, bySpace := aset space pats rec0.bySpace }
+  let s1 : NodeSt := { s with remote := aset space t' s.remote, streams := aset sid rec1 s.streams }
+  let s2 : NodeSt :=
+    if accepted.isEmpty then
+      -- repaired code: drop the empty records created above
+      let rec2 : StreamRec := if pats.isEmpty then { rec1 with bySpace := aerase space rec1.bySpace } else rec1
+      { s1 with streams := pruneStream (aset sid rec2 s1.streams) sid, remote := pruneSpace s1.remote space }
+    else
+      match s1.addTags sid (accepted.map (interestTag space)) with
+      | some s' => s'
+      | none =>
+        -- the stream vanished: undo the interest
+        let rb := accepted.foldl (rollbackStep space) (rec1, t')
+        { s1 with streams := pruneStream (aset sid rb.1 s1.streams) sid,
+                  remote := pruneSpace (aset space rb.2 s1.remote) space }
+  (s2, res.2.2.2.2)
+
 /-- `handleSubscribe` for a frame read from stream `sid` (peer / identity are the stream's). -/
 def handleSubscribe (s : NodeSt) (sid : Nat) (peer ident : String) (space : String) (topics : List String) :
     NodeSt × Obs :=
@@ -163,29 +196,8 @@ def handleSubscribe (s : NodeSt) (sid : Nat) (peer ident : String) (space : Stri
     else if !(topics.all validatePattern) then (s, { statuses := s.sendStatus peer .invalidTopic space topics false })
     else if !s.isMember space acct then (s, { statuses := s.sendStatus peer .notAMember space topics false })
     else
-      let t := (s.getTrie space).getD Trie.empty
-      let rec0 := (alookup sid s.streams).getD ⟨acct, 0, []⟩
-      let pats0 := rec0.pats space
-      let (pats, total, t', accepted, rejected) := acceptLoop s.capSpace s.capStream topics pats0 rec0.total t []
-      let rec1 : StreamRec := { rec0 with total := total, bySpace := aset space pats rec0.bySpace }
-      let s1 : NodeSt := { s with remote := aset space t' s.remote, streams := aset sid rec1 s.streams }
-      let s2 : NodeSt :=
-        if accepted.isEmpty then
-          -- repaired code: drop the empty records created above
-          let rec2 : StreamRec := if pats.isEmpty then { rec1 with bySpace := aerase space rec1.bySpace } else rec1
-          let streams2 := pruneStream (aset sid rec2 s1.streams) sid
-          { s1 with streams := streams2, remote := pruneSpace s1.remote space }
-        else
-          match s1.addTags sid (accepted.map (interestTag space)) with
-          | some s' => s'
-          | none =>
-            -- the stream vanished: undo the interest
-            let (rec2, t2) := accepted.foldl (fun (acc : StreamRec × Trie) p =>
-              let r := removeStreamPattern acc.1 acc.2 space p; (r.1, r.2.1)) (rec1, t')
-            { s1 with streams := pruneStream (aset sid rec2 s1.streams) sid,
-                      remote := pruneSpace (aset space t2 s1.remote) space }
-      let st := if rejected.isEmpty then [] else s.sendStatus peer .tooManyTopics space rejected false
-      (s2, { statuses := st })
+      let r := s.subscribeCore sid space topics acct
+      (r.1, { statuses := if r.2.isEmpty then [] else s.sendStatus peer .tooManyTopics space r.2 false })
 
 /-- `handleUnsubscribe` -/
 def handleUnsubscribe (s : NodeSt) (sid : Nat) (space : String) (topics : List String) : NodeSt :=
